@@ -276,7 +276,7 @@ JudgeDigest(ev) ==
     ELSE "ok"
 
 Judge(ev) ==
-    IF ev.e = "Panic" THEN "panic"
+    IF ev.e = "Panic" THEN (IF phase = "run" THEN "panic_with_open_frames" ELSE "panic")
     ELSE IF phase = "boot" THEN "event_before_transaction"
     ELSE IF phase = "done" /\ ev.e # "Digest" THEN "event_after_terminal_record"
     ELSE IF phase = "nohooks" /\ ev.e # "End" THEN "hook_event_in_digest_only_run"
